@@ -28,10 +28,13 @@ def native_mutators_of(obj):
                 ("difference_update", [(set(obj),)]), ("remove", [(next(iter(obj), None),)])]
     else:
         return []
-    out = []
-    for m in wrappers.native_mutators(kind):
-        out.append((m, MUT_ARGS[kind].get(m, [()])))
-    return out
+    if kind not in _NATIVE_MUTATORS:
+        # the mutators of Python's own list / deque / dict: probed once per process (the probe is costly)
+        _NATIVE_MUTATORS[kind] = list(wrappers.native_mutators(kind))
+    return [(m, MUT_ARGS[kind].get(m, [()])) for m in _NATIVE_MUTATORS[kind]]
+
+
+_NATIVE_MUTATORS = {}
 
 
 MUT_ARGS = {
